@@ -994,8 +994,12 @@ func c12R1(w *World, r *Report) {
 	}
 	if fn := fnOrUndecided(w, r, rule, "BloomSearchEngine.identifyFileMergeGroups"); fn != nil {
 		operands := map[string][]string{}
+		var sizeSums []ssa.Value
 		cl := limitGuardClassifier(w, func(limit string, other ssa.Value) {
 			operands[limit] = append(operands[limit], sortedKeys(w.leaves(other))...)
+			if limit == "MaxFileSize" {
+				sizeSums = append(sizeSums, other)
+			}
 		})
 		fl := newFlow(w, fn, cl)
 		n := 0
@@ -1025,6 +1029,83 @@ func c12R1(w *World, r *Report) {
 			}
 		}
 		r.check(hasNew, rule, "identifyFileMergeGroups:size-operand", w.pos(fn.Pos()), "tests group size + candidate size", "MaxFileSize is not compared against the group's size plus the candidate's totalSize")
+		// the tested sum is what the group's size becomes when the file joins:
+		// tested = acc + candidate.totalSize with acc a loop-carried value whose
+		// next value is that same sum on the joining path and acc itself otherwise
+		carried := false
+		var joinBlocks []*ssa.BasicBlock
+		eachInstr(fn, func(in ssa.Instruction) {
+			if c, ok := in.(*ssa.Call); ok {
+				if base, elems, ok := appendedElems(c); ok && len(elems) == 1 && w.typeName(base.Type()) == "[]fileMergeCandidate" {
+					if _, isPhi := base.(*ssa.Phi); isPhi {
+						joinBlocks = append(joinBlocks, in.Block())
+					}
+				}
+			}
+		})
+		for _, sum := range sizeSums {
+			b, ok := sum.(*ssa.BinOp)
+			if !ok || b.Op != token.ADD {
+				continue
+			}
+			acc, isPhi := b.X.(*ssa.Phi)
+			cand := b.Y
+			if !isPhi {
+				acc, isPhi = b.Y.(*ssa.Phi)
+				cand = b.X
+			}
+			if !isPhi || !strings.HasSuffix(w.path(cand), ".statistics.totalSize") {
+				continue
+			}
+			sameSum := func(v ssa.Value) bool {
+				x, ok := v.(*ssa.BinOp)
+				if !ok || x.Op != token.ADD {
+					return false
+				}
+				return (x.X == ssa.Value(acc) && w.path(x.Y) == w.path(cand)) || (x.Y == ssa.Value(acc) && w.path(x.X) == w.path(cand))
+			}
+			viaJoin := func(p *ssa.BasicBlock) bool {
+				for _, jb := range joinBlocks {
+					if jb == p || jb.Dominates(p) {
+						return true
+					}
+				}
+				return false
+			}
+			var next func(v ssa.Value, from *ssa.BasicBlock, depth int) bool
+			next = func(v ssa.Value, from *ssa.BasicBlock, depth int) bool {
+				if depth > 6 {
+					return false
+				}
+				if ph, ok := v.(*ssa.Phi); ok && ph != acc {
+					for k, e := range ph.Edges {
+						if !next(e, ph.Block().Preds[k], depth+1) {
+							return false
+						}
+					}
+					return true
+				}
+				if viaJoin(from) {
+					return sameSum(v)
+				}
+				return v == ssa.Value(acc)
+			}
+			okAcc, nBack := true, 0
+			for k, e := range acc.Edges {
+				pred := acc.Block().Preds[k]
+				if !acc.Block().Dominates(pred) {
+					continue // the seed's own size on loop entry
+				}
+				nBack++
+				if !next(e, pred, 0) {
+					okAcc = false
+				}
+			}
+			if okAcc && nBack > 0 && len(joinBlocks) > 0 {
+				carried = true
+			}
+		}
+		r.check(carried, rule, "identifyFileMergeGroups:size-accumulates", w.pos(fn.Pos()), "the tested sum becomes the group's size when the file joins", "the size tested against MaxFileSize is not carried forward as the group's size when a file joins (the running total stays at the seed's size or advances by something else): a group of three or more files can exceed MaxFileSize")
 		r.check(len(operands["MaxFilesToMergePerOperation"]) >= 2, rule, "identifyFileMergeGroups:count-guards", w.pos(fn.Pos()), "both the per-group and the per-operation file-count guards exist", "a file-count guard against MaxFilesToMergePerOperation is missing: one Merge can remove more source files than configured")
 		_, strict := operands["MaxFileSize:strict"]
 		r.check(!strict, rule, "identifyFileMergeGroups:size-inclusive", w.pos(fn.Pos()), "inclusive limit", "MaxFileSize is tested with a strict comparison")
